@@ -260,3 +260,39 @@ func envValOf(s string) string {
 
 // hasPrefixStr is strings.HasPrefix (term-level under symgo).
 func hasPrefixStr(s, prefix string) bool { return strings.HasPrefix(s, prefix) }
+
+// verifNoop is used by the engine as the body of context cancel functions.
+func verifNoop() {}
+
+// ctxTimeoutCount: number of context.WithTimeout calls made so far (engine ghost state; natively unknown).
+func ctxTimeoutCount() int { return -1 }
+
+// heldByMe reports whether the calling goroutine holds the mutex (engine ghost state; natively permissive).
+func heldByMe(mu interface{}) bool { return true }
+
+// atoiStr: decimal value of a digit string (-1 when not all digits), as the SMT str.to_int.
+func atoiStr(s string) int {
+	n, err := strconv.Atoi(s)
+	if err != nil || n < 0 {
+		return -1
+	}
+	return n
+}
+
+// sameObject: a and b are the very same pointer / slice (same backing array and length) / map.
+func sameObject(a, b interface{}) bool {
+	va, vb := reflect.ValueOf(a), reflect.ValueOf(b)
+	if !va.IsValid() || !vb.IsValid() {
+		return !va.IsValid() && !vb.IsValid()
+	}
+	if va.Kind() != vb.Kind() {
+		return false
+	}
+	switch va.Kind() {
+	case reflect.Ptr, reflect.Map:
+		return va.Pointer() == vb.Pointer()
+	case reflect.Slice:
+		return va.Len() == vb.Len() && (va.Len() == 0 && va.IsNil() == vb.IsNil() || va.Len() > 0 && va.Pointer() == vb.Pointer())
+	}
+	return reflect.DeepEqual(a, b)
+}
